@@ -306,6 +306,10 @@ func c12State(run *report.Run, cfg *world.Config, hist []world.Op, acc *pairAcc,
 				continue
 			}
 			atomic.AddInt64(&st.errorsReturned, 1)
+			if len(hist) >= 4 && f.i >= 1 && acc.wantSample() {
+				acc.sample(map[string]interface{}{"config": cfg.Name, "pre_state_built_by": cfg.DescribeHist(hist), "operation": fmt.Sprintf("%s(%v)", op.name, cfg.Key(op.k)), "environment_calls_fault_free": map[string]int{"load": nLoad, "compare": nCmp, "marshal": nMsh},
+					"deviation": fmt.Sprintf("%s call #%d returns an error", f.kind, f.i), "operation_returned": res.Err.Error()})
+			}
 			desc := append(cfg.DescribeHist(hist), fmt.Sprintf("then %s(%v) with %s #%d failing (and #%d)", op.name, cfg.Key(op.k), f.kind, f.i, f.j))
 			c1, s1, h1 := treeView(w, t)
 			var diffs []string
